@@ -62,6 +62,7 @@ structure Ob where
   paused : Bool
   rl : Option Int
   xtr : List (Key × String × Bool)         -- xtriggers of the pooled proxies: (task, label, satisfied)
+  suip : List (Key × List (List (Atom × Bool)))   -- suicide prerequisites of the pooled proxies that have any
   deriving Inhabited
 
 def keyArr? (j : Json) : Option Key :=
@@ -122,12 +123,20 @@ def parseOb (ob : Json) : Ob :=
     xtr := ((jArrField? ob "xtr").getD []).filterMap fun e =>
       match jArr? e with
       | some [p, n, l, v] => do pure ((← jInt? p, ← jStr? n), ← jStr? l, ← jBool? v)
+      | _ => none,
+    suip := ((jArrField? ob "suip").getD []).filterMap fun e =>
+      match jArr? e with
+      | some [p, n, l] => do
+        pure ((← jInt? p, ← jStr? n), ((jArr? l).getD []).map fun pr => ((jArr? pr).getD []).filterMap parseAtomSat)
       | _ => none }
 
 def Ob.get? (o : Ob) (k : Key) : Option PO := o.pool.find? (·.key == k)
 def Ob.has (o : Ob) (k : Key) : Bool := (o.get? k).isSome
 /-- the xtriggers (label, satisfied) of a pooled task -/
 def Ob.xtrOf (o : Ob) (k : Key) : List (String × Bool) := (o.xtr.filter (·.1 == k)).map (·.2)
+
+/-- the suicide prerequisite atoms of a pooled task (`none`: not pooled, or it has none) -/
+def Ob.suiOf (o : Ob) (k : Key) : Option (List (Atom × Bool)) := (o.suip.find? (·.1 == k)).map fun e => e.2.flatMap id
 
 def Ob.rowsOf (o : Ob) (k : Key) : List TsRow := (o.ts.getD []).filter (·.key == k)
 
